@@ -203,10 +203,24 @@ def canon(lines, scn):
     """address-blind form of a trace: every endpoint whose address is a natted node address or an external
     address is printed with the token of its NAT group, so that the with-NAT and the without-NAT trace of one
     scenario must be equal line by line. Returns (canonical lines, the raw lines they stem from)."""
-    grp = {}
+    # NAT groups: an address behind NAT hops, and the external address of EVERY NAT hop on its outgoing route (a
+    # segment that a queue between two NAT hops tail-drops is retransmitted carrying the first hop's address), are
+    # one group; groups that share an address are one group
+    parent = {}
+    def find(x):
+        parent.setdefault(x, x)
+        while parent[x] != x:
+            parent[x] = parent[parent[x]]; x = parent[x]
+        return x
     for ip in scn.natted_ips():
-        e = scn.ext_of(ip)
-        grp[ip] = "<nat:%s>" % e; grp[e] = "<nat:%s>" % e
+        for h in scn.out_route(ip):
+            k = scn.hops.get(h)
+            if k and k[0] == "nat" and "ext" in k[1]:
+                parent[find(k[1]["ext"])] = find(ip)
+    grp = {}
+    for x in list(parent):
+        members = sorted(y for y in parent if find(y) == find(x))
+        grp[x] = "<nat:%s>" % members[0]
     if not grp:
         keep = [l for l in lines if not l.startswith("F ")]
         return keep, keep
